@@ -259,6 +259,7 @@ def mon_c06(run, ftg3_out=None):
     state = {}
     info = graph_info(run)
     cancelled_at = {}
+    sched_from = {}
     log = run["log"]
     for i, e in enumerate(log):
         k = e[0]
@@ -275,6 +276,11 @@ def mon_c06(run, ftg3_out=None):
                 bad.append("task %s moved %s -> %s by %s, not an edge of the lifecycle" % (t, before, after, op))
             if before in FINAL and after != before:
                 bad.append("task %s left the final state %s" % (t, before))
+            if op == "schedule" and before != "SCHEDULED":
+                sched_from[t] = before
+            if op == "unschedule" and t in sched_from and after != sched_from[t]:
+                bad.append("task %s was scheduled from %s but is %s after its plan was skipped or retracted: it must fall back "
+                           "to its EARLIER state" % (t, sched_from[t], after))
             if op == "unschedule" and after not in ("VIRTUAL", "RELEASED"):
                 bad.append("task %s is %s after its plan was skipped or retracted (unschedule), not back in its earlier "
                            "state VIRTUAL/RELEASED" % (t, after))
